@@ -353,8 +353,8 @@ fn struct_pass_program(sizes: &[usize]) -> (String, Vec<String>) {
 pub fn run(tier: &str, seed: u64, widen: bool) -> Report {
     let mut rep = Report::new(
         "C02",
-        "real capy CLI: (1) the stores of writer functions read from the printed Cranelift IR vs the Lean footprint model CapyV.Stores.footprint; (2) guards and field contents printed by the built program after every write; struct arguments/returns of every size",
-        "struct layouts `g0 f0 g1 f1 … gn` with u8 guards between 3-5 fields drawn (seeded) from: small/wide enums, ?u16, ?u64, ?^i32, bool!i32, struct{u64,u8}, struct{u16,u8}, [2]struct{u16,u8}, u32; for every field every kind of source (same type, each variant, payload, nil): one writer function; plus by-value struct arguments/returns of sizes 1..64 between guards. Non-trivial = a write into a sum type or odd-sized aggregate; distinct by (layout, writer)",
+        "real capy CLI: (1) the stores of writer functions read from the printed Cranelift IR vs the Lean footprint model CapyV.Stores.footprint; (2) guards and field contents printed by the built program after every write; struct arguments/returns of every size; (3) generated copy programs (every syntactic form of an aggregate copy, writes to source and copy, direct / through pointers / in callees) vs the Lean model CapyV.Copy.run",
+        "struct layouts `g0 f0 g1 f1 … gn` with u8 guards between 3-5 fields drawn (seeded) from: small/wide enums, ?u16, ?u64, ?^i32, bool!i32, struct{u64,u8}, struct{u16,u8}, [2]struct{u16,u8}, u32; for every field every kind of source (same type, each variant, payload, nil): one writer function; plus by-value struct arguments/returns of sizes 1..64 between guards; plus CopyLang programs: 2-3 initial aggregates (struct, nested struct, array of structs, int array), 14-27 seeded operations (copy in one of 9 forms from a variable, field or element; scalar write direct / through a pointer / in a callee; aggregate assignment between or within variables; print of a cell) and a final print of every cell, the 9-form corpus first. Non-trivial = a write into a sum type or odd-sized aggregate; distinct by (layout, writer)",
     );
     if !e2e::available() {
         rep.notes.push("capy CLI binary missing".into());
@@ -458,6 +458,8 @@ pub fn run(tier: &str, seed: u64, widen: bool) -> Report {
             rep.oracle_fail("struct-arg-return", json!({"sizes": chunk, "source": src}), json!({"built": o[0].built, "status": o[0].run_summary(), "lines": got}), json!(expect), "by-value struct argument/return changed a value it should not or lost a byte");
         }
     }
+    // 3. aggregates are copied: generated copy programs vs the CopyLang model
+    crate::c02_copy::run(&mut rep, &mut rng, tier, widen);
     rep
 }
 
